@@ -923,6 +923,14 @@ func (env *Env) call(x *SExpr) Value {
 		a, b := env.eval(args[0]), env.eval(args[1])
 		e.ensureStrDecls()
 		return Value{T: tString, S: []string{"(pathjoin " + a.S[0] + " " + b.S[0] + ")"}}
+	case "atoi":
+		v := env.eval(args[0])
+		e.decimalAxioms()
+		return intVal("(atoi " + v.S[0] + ")")
+	case "trimsp":
+		v := env.eval(args[0])
+		e.decimalAxioms()
+		return Value{T: tString, S: []string{"(trimsp " + v.S[0] + ")"}}
 	case "itoa":
 		v := env.eval(args[0])
 		return Value{T: tString, S: []string{"(strfromint " + v.S[0] + ")"}}
